@@ -95,14 +95,95 @@ theorem clearWith_cleanupWith (cand : Name → Bool) (key : Name → Nat) (max :
         rw [hc] at this; cases this
       simp [hnm]
 
-/-- a save by pipeline `pid` changes nothing outside `pid`'s own-named files -/
-theorem clear_save (max : Option Nat) (fs : FS) (s : State) (hts : s.timestamp ≤ u64Max) :
-    clear s.pipelineId (save max fs s) = clear s.pipelineId fs := by
-  unfold clear save cleanup
-  rw [clearWith_cleanupWith, clearWith_write]
+/-! ### the store functions with sub-directories (`cleanupD`, `clearD`, `saveD`) -/
+
+theorem ownFile_of_fileName (isDir : Name → Bool) (s : State) (hts : s.timestamp ≤ u64Max)
+    (hd : isDir (fileName s) = false) : ownFile isDir s.pipelineId (fileName s) = true := by
   have := fileStamp_fileNameOf s.pipelineId s.timestamp hts
-  unfold isOwn fileName
-  rw [this]; rfl
+  unfold ownFile isOwn fileName
+  unfold fileName at hd
+  rw [this, hd]; rfl
+
+/-- retention removes only own-named regular files -/
+theorem clearD_cleanupD (isDir : Name → Bool) (max : Option Nat) (pid : Bytes) (fs : FS) :
+    clearD isDir pid (cleanupD isDir max pid fs) = clearD isDir pid fs := by
+  cases max with
+  | none => rfl
+  | some m =>
+    unfold clearD clearWith cleanupD
+    simp only [List.filter_filter]
+    apply List.filter_congr
+    intro f _
+    cases hc : ownFile isDir pid f.1 with
+    | true => simp
+    | false =>
+      by_cases hmem : f.1 ∈ doomed (isOwn pid) (sortKey (pfx pid)) m (names fs)
+      · have hown := (doomed_subset (isOwn pid) (sortKey (pfx pid)) hmem).2
+        unfold ownFile at hc
+        rw [hown] at hc
+        simp at hc
+        simp [hc]
+      · simp [hmem]
+
+/-- a save by pipeline `pid` changes nothing but own-named REGULAR files of `pid` — whether it succeeds, fails at
+    `File::create` (sub-directory of that name) or fails in the retention scan (directory not listable) -/
+theorem clearD_saveD (isDir : Name → Bool) (listable : Bool) (max : Option Nat) (fs : FS) (s : State)
+    (hts : s.timestamp ≤ u64Max) :
+    clearD isDir s.pipelineId ((saveD isDir listable max fs s).getD fs) = clearD isDir s.pipelineId fs := by
+  unfold saveD
+  cases hd : isDir (fileName s) with
+  | true => rfl
+  | false =>
+    have hown := ownFile_of_fileName isDir s hts hd
+    simp only [Bool.false_eq_true, if_false, Option.getD_some]
+    cases listable with
+    | true =>
+      simp only [if_true]
+      rw [clearD_cleanupD]
+      exact clearWith_write _ fs _ _ hown
+    | false =>
+      simp only [Bool.false_eq_true, if_false]
+      exact clearWith_write _ fs _ _ hown
+
+/-- without sub-directories and with a listable directory these ARE the store functions of C12 -/
+theorem cleanupD_noDirs (max : Option Nat) (pid : Bytes) (fs : FS) :
+    cleanupD (fun _ => false) max pid fs = cleanup max pid fs := by
+  cases max with
+  | none => rfl
+  | some m =>
+    unfold cleanupD cleanup cleanupWith
+    simp
+
+theorem clearD_noDirs (pid : Bytes) (fs : FS) : clearD (fun _ => false) pid fs = clear pid fs := by
+  unfold clearD clear clearWith ownFile
+  simp
+
+theorem saveD_noDirs (max : Option Nat) (fs : FS) (s : State) :
+    saveD (fun _ => false) true max fs s = some (save max fs s) := by
+  unfold saveD save
+  simp [cleanupD_noDirs]
+
+theorem mem_clearD (isDir : Name → Bool) (pid : Bytes) (fs : FS) (f : Name × Bytes) :
+    f ∈ clearD isDir pid fs ↔ f ∈ fs ∧ ownFile isDir pid f.1 = false := by
+  unfold clearD clearWith
+  simp [List.mem_filter]
+
+/-- forgetting the own-named regular files first does not change what `clear` (all own names) leaves -/
+theorem clear_clearD (isDir : Name → Bool) (pid : Bytes) (fs : FS) :
+    clear pid (clearD isDir pid fs) = clear pid fs := by
+  unfold clear clearD clearWith ownFile
+  rw [List.filter_filter]
+  apply List.filter_congr
+  intro f _
+  cases isOwn pid f.1 <;> simp
+
+theorem clearD_idem (isDir : Name → Bool) (pid : Bytes) (fs : FS) :
+    clearD isDir pid (clearD isDir pid fs) = clearD isDir pid fs := by
+  unfold clearD clearWith
+  rw [List.filter_filter]
+  apply List.filter_congr
+  intro f _
+  simp
 
 theorem stampOf_le (ns : Nat) : stampOf ns ≤ u64Max := by
   unfold stampOf u64Mod u64Max
@@ -115,27 +196,39 @@ theorem mkState_pid (env : Env) (pid : Bytes) (idx ts pc : Nat) (mode : Bytes) (
 theorem mkState_ts (env : Env) (pid : Bytes) (idx ts pc : Nat) (mode : Bytes) (total : Nat) (nt : Bytes) (pp : UInt8) :
     (mkState env pid idx ts pc mode total nt pp).timestamp = ts := rfl
 
-theorem clear_afterNode (env : Env) (cfg : Config) (pid : Bytes) (total idx : Nat) (node : Node P) (st : St) :
-    clear pid (afterNode env cfg pid total idx node st).fs = clear pid st.fs := by
+theorem clearD_doSave (env : Env) (cfg : Config) (st : St) (s : State) (hts : s.timestamp ≤ u64Max) :
+    clearD env.isDir s.pipelineId (doSave env cfg st s).fs = clearD env.isDir s.pipelineId st.fs := by
+  have h := clearD_saveD env.isDir env.dirListable cfg.max st.fs s hts
+  unfold doSave
+  cases hs : saveD env.isDir env.dirListable cfg.max st.fs s with
+  | none => rfl
+  | some fs' => rw [hs] at h; exact h
+
+theorem shouldCk_fs (env : Env) (cfg : Config) (st : St) (idx : Nat) (b : Bool) :
+    (shouldCk env cfg st idx b).2.fs = st.fs := by
+  unfold shouldCk; split <;> rfl
+
+theorem clearD_afterNode (env : Env) (cfg : Config) (pid : Bytes) (total idx : Nat) (node : Node P) (st : St) :
+    clearD env.isDir pid (afterNode env cfg pid total idx node st).fs = clearD env.isDir pid st.fs := by
   simp only [afterNode]
   split
-  · unfold doSave seqState
-    simp only []
-    have h := clear_save cfg.max (shouldCk env cfg st idx (isBarrier node)).2.fs
+  · unfold seqState
+    have h := clearD_doSave env cfg
+      { (shouldCk env cfg st idx (isBarrier node)).2 with tick := (shouldCk env cfg st idx (isBarrier node)).2.tick + 1 }
       (mkState env pid idx (stampOf (env.clock (shouldCk env cfg st idx (isBarrier node)).2.tick)) 1
         (ascii "sequential") total (nodeType node) (env.progress idx total))
       (by rw [mkState_ts]; exact stampOf_le _)
     rw [mkState_pid] at h
     rw [h]
-    unfold shouldCk; split <;> rfl
-  · unfold shouldCk; split <;> rfl
+    exact congrArg _ (shouldCk_fs env cfg st idx (isBarrier node))
+  · exact congrArg _ (shouldCk_fs env cfg st idx (isBarrier node))
 
-/-- the whole loop (finished, failed half-way or cut short — any node list) leaves every file that is not an
-    own-named checkpoint of `pid` exactly where and as it was -/
-theorem clear_runNodes {ε : Type} (step : Option P → Node P → Except ε P) (env : Env) (cfg : Config) (pid : Bytes)
+/-- the whole loop (finished, failed half-way or cut short — any node list) leaves every entry that is not an
+    own-named regular checkpoint file of `pid` exactly where and as it was -/
+theorem clearD_runNodes {ε : Type} (step : Option P → Node P → Except ε P) (env : Env) (cfg : Config) (pid : Bytes)
     (total : Nat) (chain : List (Node P)) :
     ∀ (idx : Nat) (cur : Option P) (st : St),
-      clear pid (runNodes step env cfg pid total idx chain cur st).2.fs = clear pid st.fs := by
+      clearD env.isDir pid (runNodes step env cfg pid total idx chain cur st).2.fs = clearD env.isDir pid st.fs := by
   induction chain with
   | nil => intro idx cur st; rfl
   | cons n rest ih =>
@@ -145,7 +238,13 @@ theorem clear_runNodes {ε : Type} (step : Option P → Node P → Except ε P) 
     | error e => rfl
     | ok b =>
       simp only []
-      rw [ih, clear_afterNode]
+      rw [ih, clearD_afterNode]
+
+/-- … in particular every entry whose name is not a well-formed checkpoint name of `pid` -/
+theorem clear_runNodes {ε : Type} (step : Option P → Node P → Except ε P) (env : Env) (cfg : Config) (pid : Bytes)
+    (total : Nat) (chain : List (Node P)) (idx : Nat) (cur : Option P) (st : St) :
+    clear pid (runNodes step env cfg pid total idx chain cur st).2.fs = clear pid st.fs := by
+  rw [← clear_clearD env.isDir, clearD_runNodes, clear_clearD]
 
 theorem clear_idem (pid : Bytes) (fs : FS) : clear pid (clear pid fs) = clear pid fs := by
   unfold clear clearWith
@@ -154,14 +253,29 @@ theorem clear_idem (pid : Bytes) (fs : FS) : clear pid (clear pid fs) = clear pi
   intro f _
   simp
 
+theorem clearD_clearRun (env : Env) (pid : Bytes) (fs : FS) :
+    clearD env.isDir pid (clearRun env pid fs) = clearD env.isDir pid fs := by
+  unfold clearRun
+  split
+  · exact clearD_idem _ _ _
+  · rfl
+
 /-! ## recovery -/
 
+/-- the checkpoint directory can be created and — when recovery will look into it — listed -/
+def DirUsable (env : Env) (cfg : Config) : Prop :=
+  env.dirCreatable = true ∧ (cfg.autoRecover = true → env.dirListable = true)
+
 theorem recover_ok_of_noCrash (env : Env) (cfg : Config) (pid : Bytes) (fs : FS)
+    (hl : cfg.autoRecover = true → env.dirListable = true)
     (h : ∀ bytes, NoCrash (load env.H env.dec bytes)) : ∃ lg, recover env cfg pid fs = .ok lg := by
   unfold recover
-  split
-  · exact ⟨_, rfl⟩
-  · split
+  cases ha : cfg.autoRecover with
+  | false => exact ⟨_, rfl⟩
+  | true =>
+    rw [hl ha]
+    simp only [Bool.not_true, Bool.false_eq_true, if_false]
+    split
     · exact ⟨_, rfl⟩
     · split
       · exact ⟨_, rfl⟩
@@ -175,27 +289,37 @@ theorem recover_ok_of_noCrash (env : Env) (cfg : Config) (pid : Bytes) (fs : FS)
           rw [hk]
           exact ⟨_, rfl⟩
 
-/-- recovery either returns (and is then ignored) or the process died inside `load_checkpoint` on the newest
-    own-named file -/
+/-- recovery either returns (and is then ignored), or `read_dir` failed, or the process died inside
+    `load_checkpoint` on the newest own-named regular file -/
 theorem recover_cases (env : Env) (cfg : Config) (pid : Bytes) (fs : FS) :
     (∃ lg, recover env cfg pid fs = .ok lg) ∨
-    (∃ name bytes e, cfg.autoRecover = true ∧ latest true pid fs = some name ∧ read fs name = some bytes ∧
-      load env.H env.dec bytes = .error e ∧ kills e = true ∧ recover env cfg pid fs = .error e) := by
+    (cfg.autoRecover = true ∧ env.dirListable = false ∧ recover env cfg pid fs = .error .readDir) ∨
+    (∃ name bytes e, cfg.autoRecover = true ∧ env.dirListable = true ∧ latest true pid fs = some name ∧
+      env.isDir name = false ∧ read fs name = some bytes ∧
+      load env.H env.dec bytes = .error e ∧ kills e = true ∧ recover env cfg pid fs = .error (.died e)) := by
   cases hr : cfg.autoRecover with
   | false => left; exact ⟨.off, by simp [recover, hr]⟩
   | true =>
+    cases hli : env.dirListable with
+    | false => right; left; exact ⟨rfl, rfl, by simp [recover, hr, hli]⟩
+    | true =>
     cases hl : latest true pid fs with
-    | none => left; exact ⟨.nothing, by simp [recover, hr, hl]⟩
+    | none => left; exact ⟨.nothing, by simp [recover, hr, hli, hl]⟩
     | some name =>
+      cases hd : env.isDir name with
+      | true => left; exact ⟨.unreadable, by simp [recover, hr, hli, hl, readD, hd]⟩
+      | false =>
       cases hrd : read fs name with
-      | none => left; exact ⟨.unreadable, by simp [recover, hr, hl, hrd]⟩
+      | none => left; exact ⟨.unreadable, by simp [recover, hr, hli, hl, readD, hd, hrd]⟩
       | some bytes =>
         cases hld : load env.H env.dec bytes with
-        | ok s => left; exact ⟨.loaded s, by simp [recover, hr, hl, hrd, hld]⟩
+        | ok s => left; exact ⟨.loaded s, by simp [recover, hr, hli, hl, readD, hd, hrd, hld]⟩
         | error e =>
           cases hk : kills e with
-          | false => left; exact ⟨.rejected e, by simp [recover, hr, hl, hrd, hld, hk]⟩
-          | true => right; exact ⟨name, bytes, e, rfl, rfl, hrd, hld, hk, by simp [recover, hr, hl, hrd, hld, hk]⟩
+          | false => left; exact ⟨.rejected e, by simp [recover, hr, hli, hl, readD, hd, hrd, hld, hk]⟩
+          | true =>
+            right; right
+            exact ⟨name, bytes, e, rfl, rfl, rfl, hd, hrd, hld, hk, by simp [recover, hr, hli, hl, readD, hd, hrd, hld, hk]⟩
 
 /-! ## a directory holding one well-formed checkpoint file -/
 
